@@ -134,7 +134,10 @@ type server struct {
 }
 
 func (s *server) Name() string {
-	if h := s.w.nameHook; h != nil {
+	s.w.mu.Lock()
+	h := s.w.nameHook
+	s.w.mu.Unlock()
+	if h != nil {
 		h(s)
 	}
 	return s.name
@@ -149,7 +152,7 @@ func (s *server) Dial(ctx context.Context, _ proxy.Player) (net.Conn, error) {
 	}
 	s.dials++
 	s.mu.Unlock()
-	if beh == "r" {
+	if beh == "r" || beh == "s:r" {
 		return nil, errors.New("connection refused")
 	}
 	a, b := e2e.Pipe(&net.TCPAddr{IP: net.IPv4(10, 0, 0, 9), Port: 40000}, s.Addr())
@@ -232,47 +235,62 @@ func newWorld(p proto.Protocol, names []string, try []string, scripts map[string
 	return w, nil
 }
 
-// login connects the fake client and performs the initial join (through the try list); afterwards a pump
-// goroutine plays the client's part of later switches.
+// login connects the fake client and performs the initial join (through the try list).  One pump goroutine plays
+// the client's part from the first packet on: login, (1.20.2+) every configuration phase — also a re-configuration
+// that a fallback during the initial join or a later switch starts — and play.
 func (w *world) login() error {
 	cl := w.rig.Connect(net.IPv4(1, 2, 3, 4))
 	w.client = cl
-	err := e2e.ClientLogin(cl, w.proto, "example.com", "Tester")
-	if err != nil {
+	p := w.proto
+	modern := p.GreaterEqual(version.Minecraft_1_20_2)
+	cl.Send(&packet.Handshake{ProtocolVersion: int(p), ServerAddress: "example.com", Port: 25565, NextStatus: 2})
+	cl.SetProtocol(p)
+	cl.SetState(state.Login)
+	cl.Send(&packet.ServerLogin{Username: "Tester", HolderID: uuid.OfflinePlayerUUID("Tester")})
+	joined := make(chan struct{})
+	var once sync.Once
+	done := make(chan struct{})
+	go func() {
+		_ = cl.Pump(func(c *proto.PacketContext) {
+			switch pk := c.Packet.(type) {
+			case *packet.SetCompression:
+				cl.SetCompression(pk.Threshold)
+			case *packet.ServerLoginSuccess:
+				if modern {
+					cl.Send(&packet.LoginAcknowledged{})
+					cl.SetState(state.Config)
+				} else {
+					cl.SetState(state.Play)
+				}
+			case *cfgpacket.StartUpdate:
+				// play → config: acknowledge in the play state, then both directions are in config
+				cl.Send(&cfgpacket.FinishedUpdate{})
+				cl.SetState(state.Config)
+			case *cfgpacket.FinishedUpdate:
+				cl.Send(&cfgpacket.FinishedUpdate{})
+				cl.SetState(state.Play)
+			case *packet.JoinGame:
+				once.Do(func() { close(joined) })
+			}
+		})
 		w.mu.Lock()
 		w.clientClosed = true
 		w.mu.Unlock()
+		close(done)
+	}()
+	select {
+	case <-joined:
+	case <-done:
+		return errors.New("disconnected during the initial join")
+	case <-time.After(20 * time.Second):
 		cl.Conn.Close()
-		return err
+		return errors.New("initial join timed out")
 	}
 	w.player = w.rig.Proxy.PlayerByName("Tester")
 	if w.player == nil {
 		return errors.New("player not registered")
 	}
-	go w.pumpClient()
 	return nil
-}
-
-func (w *world) pumpClient() {
-	cl := w.client
-	modern := w.proto.GreaterEqual(version.Minecraft_1_20_2)
-	_ = cl.Pump(func(c *proto.PacketContext) {
-		if !modern {
-			return
-		}
-		switch c.Packet.(type) {
-		case *cfgpacket.StartUpdate:
-			// play → config: acknowledge in the play state, then both directions are in config
-			cl.Send(&cfgpacket.FinishedUpdate{})
-			cl.SetState(state.Config)
-		case *cfgpacket.FinishedUpdate:
-			cl.Send(&cfgpacket.FinishedUpdate{})
-			cl.SetState(state.Play)
-		}
-	})
-	w.mu.Lock()
-	w.clientClosed = true
-	w.mu.Unlock()
 }
 
 func statusName(r proxy.ConnectionResult, err error) string {
@@ -383,21 +401,122 @@ func (w *world) observeOnce() observation {
 	return o
 }
 
-// observe waits for quiescence: the observation must be unchanged over several polls (bounded).
-func (w *world) observe() string {
-	last := w.observeOnce().String()
+// observe waits for quiescence.  After a call that returned (Connect) the proxy has only asynchronous clean-up left:
+// the observation must be unchanged over a short window.  After an op nobody waits for (kick, drop, login, quit) the
+// kick/fallback path runs on the proxy's own goroutines: wait until the state has the shape of a finished switch
+// (player gone, or on a server with matching list and backend, no unexplained pending connection) and is stable, or
+// has been stable for a long window.  All waits are bounded.
+func (w *world) observe(async bool) string {
+	terminal := func(o observation) bool {
+		if !o.act {
+			return len(o.lists) == 0 && len(o.open) == 0 && o.pend == 0
+		}
+		return o.cur != "-" && len(o.lists) == 1 && o.lists[0] == o.cur && len(o.open) == 1 && o.open[0] == o.cur &&
+			o.pend <= w.stalledCount()
+	}
+	lastO := w.observeOnce()
+	last := lastO.String()
 	same := 0
-	for i := 0; i < 400 && same < 6; i++ {
-		time.Sleep(5 * time.Millisecond)
-		runtime.Gosched()
-		cur := w.observeOnce().String()
+	const tick = 5 * time.Millisecond
+	short, long := 8, 300
+	for i := 0; i < 1200; i++ {
+		time.Sleep(tick)
+		o := w.observeOnce()
+		cur := o.String()
 		if cur == last {
 			same++
 		} else {
-			same, last = 0, cur
+			same, last, lastO = 0, cur, o
+		}
+		if same >= short && (!async || terminal(lastO)) {
+			break
+		}
+		if same >= long {
+			break
 		}
 	}
 	return last
+}
+
+// stalledCount: connections whose script is waiting at its stall point.
+func (w *world) stalledCount() int {
+	w.mu.Lock()
+	defer w.mu.Unlock()
+	n := 0
+	for _, c := range w.allConns {
+		select {
+		case <-c.stalled:
+			select {
+			case <-c.release:
+			default:
+				if !c.isClosed() {
+					n++
+				}
+			}
+		default:
+		}
+	}
+	return n
+}
+
+func (w *world) releaseAll() {
+	w.mu.Lock()
+	defer w.mu.Unlock()
+	for _, c := range w.allConns {
+		select {
+		case <-c.release:
+		default:
+			close(c.release)
+		}
+	}
+}
+
+// race issues two Connect calls and holds each of them between checkServer and the publication of its in-flight
+// connection (newServerConnection asks the ServerInfo for its name there) until both have arrived: the schedule in
+// which two requests pass the check together, forced through the public API only.
+func (w *world) race(a, b string) (string, string) {
+	var mu sync.Mutex
+	arrived := 0
+	gate := make(chan struct{})
+	w.setNameHook(func(*server) {
+		pcs := make([]uintptr, 8)
+		n := runtime.Callers(2, pcs)
+		fr := runtime.CallersFrames(pcs[:n])
+		for {
+			f, more := fr.Next()
+			if strings.HasSuffix(f.Function, ".newServerConnection") {
+				mu.Lock()
+				arrived++
+				if arrived == 2 {
+					close(gate)
+				}
+				wait := arrived <= 2
+				mu.Unlock()
+				if wait {
+					select {
+					case <-gate:
+					case <-time.After(1500 * time.Millisecond):
+					}
+				}
+				return
+			}
+			if !more {
+				return
+			}
+		}
+	})
+	r1, r2 := make(chan string, 1), make(chan string, 1)
+	go func() { r1 <- w.connect(a) }()
+	go func() { r2 <- w.connect(b) }()
+	x, y := <-r1, <-r2
+	w.setNameHook(nil)
+	return x, y
+}
+
+func (w *world) setNameHook(h func(*server)) {
+	w.mu.Lock()
+	w.nameHook = h
+	w.mu.Unlock()
 }
 
 func (w *world) close() {
